@@ -12,19 +12,22 @@ EXTENDS Integers, FiniteSets
 
 VARIABLE d  \* [peer, own: set of open descriptor numbers obtained by the dial, slots: allocs - frees, expired, returned]
 
-InitVal(peer) == [peer |-> peer, own |-> {}, slots |-> 0, expired |-> FALSE, returned |-> FALSE]
+InitVal(peer) == [peer |-> peer, anydrop |-> FALSE, own |-> {}, slots |-> 0, expired |-> FALSE, returned |-> FALSE]
 
-RetViol(isErr, hasConn, toFlag, late) ==
+\* waited: the harness saw the connect still in progress against a peer that never answers (free-running dials: the expiry is not an event)
+RetViolW(isErr, hasConn, toFlag, late, waited) ==
     (IF isErr /\ hasConn = 1 THEN {"C14.dial_returned_both_connection_and_error"} ELSE {})
     \cup (IF ~isErr /\ hasConn = 0 THEN {"C14.dial_returned_neither_connection_nor_error"} ELSE {})
     \* the peer never answers: the only way to fail is the expiry, and that error must say so
     \cup (IF isErr /\ d.expired /\ d.peer = "drop" /\ toFlag = 0 THEN {"C14.timeout_error_does_not_report_timeout"} ELSE {})
+    \cup (IF isErr /\ waited /\ toFlag = 0 THEN {"C14.timeout_error_does_not_report_timeout"} ELSE {})
     \cup (IF late = 1 THEN {"C14.dial_returned_long_after_its_timeout"} ELSE {})
+RetViol(isErr, hasConn, toFlag, late) == RetViolW(isErr, hasConn, toFlag, late, FALSE)
 EndViol(blocked, expireOffered) ==
     \* (judged once the dial has returned and a returned connection has been closed again)
     (IF d.returned /\ d.own # {} THEN {"C14.descriptor_left_behind"} ELSE {})
     \cup (IF d.returned /\ d.slots # 0 THEN {"C14.poller_slot_left_behind"} ELSE {})
-    \cup (IF blocked = 1 /\ (d.peer # "drop" \/ d.expired) THEN {"C14.dial_never_returned"} ELSE {})
+    \cup (IF blocked = 1 /\ (~(d.peer = "drop" \/ d.anydrop) \/ d.expired) THEN {"C14.dial_never_returned"} ELSE {})
 CensusViol(leaked, slots) ==
     (IF leaked > 0 THEN {"C14.descriptor_left_behind"} ELSE {})
     \cup (IF slots # 0 THEN {"C14.poller_slot_left_behind"} ELSE {})
